@@ -35,6 +35,7 @@ type Options struct {
 	Runs      int64 // override plan
 	WorkerEnv []string
 	NoShrink  bool
+	chunk     int64
 }
 
 // DeathClassifier lets an engine turn a dead worker into a violation.
@@ -316,6 +317,7 @@ func Supervise(e Engine, opt *Options) int {
 		chunk = 2000
 	}
 	nChunks := (total + chunk - 1) / chunk
+	opt.chunk = chunk
 	fmt.Printf("verif %s tier=%s VERIF_SEED=%d runs=%d workers=%d chunk=%d\n", e.ID(), opt.Tier, opt.Seed, total, W, chunk)
 	results := make([]*merged, nChunks)
 	var wg sync.WaitGroup
@@ -537,13 +539,14 @@ func tail(s string, n int) string {
 }
 
 type violCase struct {
-	idx     int64
-	seed    uint64
-	v       Violation
-	trace   vs.Trace
-	sample  interface{}
-	death   bool
-	payload []byte
+	idx       int64
+	seed      uint64
+	v         Violation
+	trace     vs.Trace
+	sample    interface{}
+	death     bool
+	payload   []byte
+	batchSeed uint64
 }
 
 // ReplayFile is what a VIOLATION line points at.
@@ -566,6 +569,8 @@ type ReplayFile struct {
 	// goroutines of its own, which the scheduler does not own): the replay
 	// reproduces the violation only with the stated frequency.
 	Statistical string `json:"statistical_replay,omitempty"`
+	// HistoryFrom, if set: execute runs HistoryFrom..run_index in one process.
+	HistoryFrom *int64 `json:"history_from_run,omitempty"`
 	// ReplayWholeRun: ignore payload_hex and regenerate the run from run_seed.
 	ReplayWholeRun bool `json:"replay_whole_run,omitempty"`
 }
@@ -637,6 +642,47 @@ func reproduces(e Engine, rp *replayer, c *violCase, tr vs.Trace, strict bool) (
 	return false, nil, nil, ""
 }
 
+// reproducesWithHistory executes the runs from..c.idx in ONE fresh worker
+// process (as the batch originally did) and reports whether run c.idx shows
+// the violation: for failures that depend on what the same process executed
+// before (state the library carries from call to call).
+func reproducesWithHistory(e Engine, opt *Options, c *violCase, from int64) (bool, interface{}, string) {
+	rp := &replayer{opt: opt, fresh: true}
+	resp, _, _, _ := rp.do(&Request{Kind: "batch", Tier: opt.Tier, BatchSeed: batchSeedOf(opt, c), Start: from, End: c.idx + 1})
+	if resp == nil {
+		return false, nil, ""
+	}
+	for _, f := range resp.Found {
+		if f.Idx != c.idx {
+			continue
+		}
+		for _, v := range f.V {
+			if v.Sig == c.v.Sig {
+				return true, f.Sample, v.Detail
+			}
+		}
+	}
+	return false, nil, ""
+}
+
+func batchSeedOf(opt *Options, c *violCase) uint64 {
+	if c.batchSeed != 0 {
+		return c.batchSeed
+	}
+	return opt.Seed
+}
+
+func writeReplay(e Engine, opt *Options, c *violCase, rf *ReplayFile) (string, string) {
+	b, _ := json.MarshalIndent(rf, "", " ")
+	h := sha256.Sum256(b)
+	os.MkdirAll(opt.ReplayDir, 0o755)
+	path := filepath.Join(opt.ReplayDir, fmt.Sprintf("%s-%d-%s.json", e.ID(), c.seed, hex.EncodeToString(h[:4])))
+	if err := os.WriteFile(path, b, 0o644); err != nil {
+		return "", "cannot write replay file: " + err.Error()
+	}
+	return path, "confirmed"
+}
+
 func processViolation(e Engine, opt *Options, c *violCase) (string, string) {
 	rf := &ReplayFile{Property: e.ID(), Tier: opt.Tier, BatchSeed: opt.Seed, Idx: c.idx, Seed: c.seed, TreeHash: opt.TreeHash, Violation: c.v, Death: c.death}
 	tr := c.trace
@@ -670,6 +716,36 @@ func processViolation(e Engine, opt *Options, c *violCase) (string, string) {
 				n = 12
 			}
 			rf.Statistical = fmt.Sprintf("%d of %d further fresh-process executions of the same seed reproduced the report (the detector is not deterministic)", hits, n+1)
+		}
+	}
+	if c.v.Class == "cross-process-divergence" && ok {
+		// instrumented and un-instrumented builds disagree deterministically, in
+		// fresh processes with no history: that points at the instrumentation,
+		// not at the library
+		return "", "instrumented and un-instrumented builds disagree deterministically in fresh processes (instrumentation suspected): " + tail(detail, 1500)
+	}
+	if !ok && !c.death && opt.chunk > 0 {
+		// not on its own: with the runs the same worker executed before it?
+		from := (c.idx / opt.chunk) * opt.chunk
+		if from < c.idx {
+			hits := 0
+			var smp interface{}
+			var det string
+			for i := 0; i < 2; i++ {
+				if ok2, s2, d2 := reproducesWithHistory(e, opt, c, from); ok2 {
+					hits++
+					smp, det = s2, d2
+				}
+			}
+			if hits == 2 {
+				rf.HistoryFrom = &from
+				rf.Scenario = smp
+				if det != "" {
+					rf.Violation.Detail = det
+				}
+				rf.Note = fmt.Sprintf("history-dependent: run %d alone does not show the violation in a fresh process; executing runs %d..%d in one fresh process does (twice): the library carries state from earlier calls", c.idx, from, c.idx)
+				return writeReplay(e, opt, c, rf)
+			}
 		}
 	}
 	if !ok {
@@ -873,7 +949,17 @@ func replayMain(e Engine, args []string) int {
 		return 2
 	}
 	opt.Tier = rf.Tier
-	c := &violCase{idx: rf.Idx, seed: rf.Seed, v: rf.Violation, death: rf.Death}
+	c := &violCase{idx: rf.Idx, seed: rf.Seed, v: rf.Violation, death: rf.Death, batchSeed: rf.BatchSeed}
+	if rf.HistoryFrom != nil {
+		opt.Seed = rf.BatchSeed
+		if ok, _, detail := reproducesWithHistory(e, &opt, c, *rf.HistoryFrom); ok {
+			fmt.Printf("replayed (runs %d..%d in one process): %s\n%s\n", *rf.HistoryFrom, rf.Idx, rf.Violation.Sig, tail(detail, 4000))
+			fmt.Printf("VIOLATION property=%s replay=%s\n", e.ID(), file)
+			return 1
+		}
+		fmt.Printf("replay %s: violation %s did not recur on this tree\n", file, rf.Violation.Sig)
+		return 0
+	}
 	if rf.Payload != "" && !rf.ReplayWholeRun {
 		c.payload, _ = hex.DecodeString(rf.Payload)
 	}
